@@ -142,12 +142,13 @@ Definition check_doc (d : doc) (ps : list ipage) : N :=
 End Reading.
 
 (* the implementation's reading of `:nth(0n+0)`: pageIndex.IsNone (tree/tree.go:234)
-   cannot tell it from "no :nth()", so the selector loses its index condition *)
+   cannot tell it from "no :nth()", so the selector loses its index condition (but keeps
+   the specificity of one): :nth(1n+1) matches every page *)
 Definition drop_nth_zero (d : doc) : doc :=
   mkDoc (d_rtl d) (d_root_bb d)
     (map (fun r => mkRule
        (map (fun s => match s_nth s with
-                      | Some (NthAB 0 0) => mkSel (s_name s) (s_side s) (s_blank s) (s_first s) None
+                      | Some (NthAB 0 0) => mkSel (s_name s) (s_side s) (s_blank s) (s_first s) (Some (NthAB 1 1))
                       | _ => s
                       end) (r_sels r)) (r_decls r)) (d_rules d))
     (d_flow d).
